@@ -152,7 +152,8 @@ PROPS = {
     "C16": P("hfee", "rapid-generated programs (mutate storage, balances, flags, events, BTP messages, then fail at a drawn point or inside nested frames) run by a "
              "programmable contract through the real CallContext over two transports, compared with a frame-survival reference model and the Merkle state hash",
              "About 1000 failing-after-mutation transactions and ~50 outer-success-with-inner-rollback cases per quick run across all failure statuses, nesting depth "
-             "up to 4 and the fee-charge rollback; the oracle is the whole account-trie hash plus per-key/per-balance diffs plus receipt logs and BTP messages. "
+             "up to 4, the fee-charge rollback and the transaction-timeout clean-up (an asynchronous callee that writes and never answers, in worlds with a "
+             "200 ms transaction timeout); the oracle is the whole account-trie hash plus per-key/per-balance diffs plus receipt logs and BTP messages. "
              "Exploration.",
              "trusts service/state for building the expected hash (checked by C14) and the harness contract's own record of what it did; sequential executor only; "
              "no external EE", "DESIGN §6 (C16)"),
@@ -171,16 +172,21 @@ PROPS = {
              "Every torn-tail state of short unsynced tails (all byte offsets up to 96 B) and all frame-boundary neighbourhoods of long ones is recovered with the "
              "applyRoundWAL loop and continued through up to 4 crash/recover/append cycles incl. rotated segments; recovered records must be a byte-equal prefix "
              "containing every synced record. Exploration with exhaustive small scopes.",
-             "crash = truncation of the tail segment (prefix-persistence model); fsync and the file system are trusted; scratch on tmpfs; retention out of scope",
+             "crash = truncation of the tail segment (prefix-persistence model); fsync and the file system are trusted; scratch on tmpfs; the retention "
+             "sub-check (small FileLimit/TotalLimit, housekeeping) demands a contiguous most-recent run and a clean end, not a particular amount kept",
              "DESIGN §4 (C03)", qt=1200),
     "C04": P("hcons", "rapid vote sequences on the real voteSet (hook), independent recount of the slot array after every add",
              "Threshold (exactly > 2n/3), uniqueness of the reported decision and stickiness are compared against an independent recount after every step of "
              "thousands of sequences up to n=10 with duplicates and conflicting re-votes. Exploration.",
              "hook accessors trusted; the replacement policy without +2/3 is not judged (statement silent)", "DESIGN §4 (C04)"),
-    "C05": P("hcons", "constructed certificates with 16 bad-item classes through the wire decoder, VerifyBlock, toVoteList and a real BlockManager.Import",
+    "C05": P("hcons", "constructed certificates with 16 bad-item classes through the wire decoder, VerifyBlock, toVoteList, a real BlockManager.Import (also across a "
+             "validator-set change) and a real consensus engine's fast-sync entry (ReceiveBlockResult -> processBlock) after drawn earlier votes",
              "No explored list is accepted without > 2/3 distinct valid signers over exactly the target, the voter bitmap equals the signer set, and no list "
-             "(unrecoverable, 64-byte, duplicated, foreign, wrong-target signatures) panics. Exploration; only-if direction.",
-             "secp256k1 library trusted; BTP proofs empty; the fast-sync processBlock path is exercised by the C01 simulator", "DESIGN §4 (C05)"),
+             "(unrecoverable, 64-byte, duplicated, foreign, wrong-target signatures) panics. After a validator-set change only the set designated by the parent "
+             "certifies. On the fast-sync path a block result is consumed only if list plus earlier received precommits for exactly (block, round, part set) "
+             "come from > 2/3 distinct validators, whatever other quorum (nil, other block, other round, prevotes) the node saw before. Exploration; only-if direction.",
+             "secp256k1 library trusted; BTP proofs empty; pairs (block id, part set id) that belong to no block are uttered by at most f=(n-1)/3 validators "
+             "(the engine identifies a block by its part set id)", "DESIGN §4 (C05)"),
     "C06": P("hcons", "attribute-mutated message pairs against a reference predicate, at IsConflictWith (both orders), dsmLog and DoubleSignReport PreValidate",
              "No explored non-conflict (different signer, height, round, type, network, identical content, or two copies of one signed vote that differ only in the parts "
              "the signature does not cover) is ever claimed or accepted as evidence. "
